@@ -221,4 +221,66 @@ theorem eval_pure_shared (fuel : Nat) (h : Heap) (pre post : List SStep) (id : N
   rw [runS_append]
   rfl
 
+/-! ## Round-5 additions -/
+
+/-- `In` over tuples, any number of parameters (the part of clause 4 that `in_is_union` does not reach): the answer is the
+    first-true union, over the rows whose width is that of the argument list, of the row answers; a row answers the
+    conjunction of its components (`evalRow`, by definition).  Holds for every resolved state. -/
+theorem in_rows_union (rows : RRows) (input : List (Option Val)) :
+    eval (.inE rows) input =
+      orRes (((RRows.toList rows).filter (fun r => r.len == input.length)).map (fun r => evalRow r input)) := by
+  simpa [eval] using evalRows_union rows input
+
+/-- Non-vacuity: two rows of different width, only the matching one is consulted. -/
+example : eval (.inE (.cons (.cons .any .nil) (.cons (.cons .any (.cons .any .nil)) .nil))) [some (.bool "bool" true)] = .ok true := by
+  rw [in_rows_union]; rfl
+
+/-- A component that `In.Resolve` can bind to the parameter type `T`: a well-typed plain value that is not itself a
+    `[]interface{}` (which `In` reads as a tuple — known finding), `nil` for a nilable `T`, or `Any()`. -/
+def GoodComp (T : Ty) : Comp → Prop
+  | .val none => Nilable T
+  | .val (some (v, sz)) => WellTyped T v sz ∧ Comp.isTupleLike (.val (some (v, sz))) = false
+  | .sub .any => True
+  | .sub _ => False
+
+theorem toValue_total (T : Ty) (x : Arg)
+    (hx : match x with | none => Nilable T | some (v, sz) => WellTyped T v sz) : ∃ v, toValue x T = .ok (some v) := by
+  cases x with
+  | none => rcases hx with h | h | h | h | h <;> simp [toValue, nilableZero, h]
+  | some p => obtain ⟨v, sz⟩ := p; exact ⟨_, toValue_wt T v sz hx⟩
+
+/-- Resolve-totality for `In` (non-variadic, one parameter): if every alternative is a good component for `T`, then
+    `In(x1..xn).Resolve([T])` succeeds — no error, no panic — and by `eval_total` every later `Eval` answers.
+    PARTIAL with respect to the property text: a `[]interface{}` alternative is excluded (finding
+    `C18-in-item-slice-of-interface-is-tuple`), nested `Equals`/`In` sub-expressions are not covered, variadic mode is not. -/
+theorem in_resolve_total_partial (T : Ty) : ∀ (items : Items) (cs : List Comp), Items.comps items = some cs →
+    (∀ c ∈ cs, GoodComp T c) → ∃ rows, resolveItems items [T] = .ok rows
+  | .nil, cs, _, _ => ⟨.nil, by simp [resolveItems]⟩
+  | .tuple _ _, cs, hc, _ => by simp [Items.comps] at hc
+  | .one c rest, cs, hc, hg => by
+    simp only [Items.comps, Option.map_eq_some_iff] at hc
+    obtain ⟨cs', hcs', rfl⟩ := hc
+    obtain ⟨rows, hrows⟩ := in_resolve_total_partial T rest cs' hcs' (fun c' h' => hg c' (by simp [h']))
+    have hgc := hg c (by simp)
+    have hcomp : Comp.isTupleLike c = false ∧ ∃ e, resolveComp c T = .ok e := by
+      match c, hgc with
+      | .val none, h =>
+        obtain ⟨v, hv⟩ := toValue_total T none h
+        exact ⟨rfl, ⟨.equals (some v), by simp [resolveComp, hv, Res.bind]⟩⟩
+      | .val (some (v, sz)), h =>
+        obtain ⟨v', hv⟩ := toValue_total T (some (v, sz)) h.1
+        exact ⟨h.2, ⟨.equals (some v'), by simp [resolveComp, hv, Res.bind]⟩⟩
+      | .sub .any, _ => exact ⟨rfl, ⟨.any, by simp [resolveComp, resolve]⟩⟩
+    obtain ⟨ht, e, he⟩ := hcomp
+    exact ⟨.cons (.cons e .nil) rows, by simp [resolveItems, ht, typeAt, he, hrows, Res.bind]⟩
+
+/-- Non-vacuity: `In(1, nil-free Any())` on an `int` parameter satisfies the hypotheses. -/
+example : ∀ c ∈ [Comp.val (some (.int "int" true 1, 8)), Comp.sub .any],
+    GoodComp { name := "int", kind := .int, size := 8 } c := by
+  intro c hc
+  simp at hc
+  rcases hc with rfl | rfl
+  · exact ⟨by simp [WellTyped, Val.ty], rfl⟩
+  · trivial
+
 end C18
